@@ -43,6 +43,8 @@ def canon(v):
         return ('L', tuple(canon(x) for x in v))
     if isinstance(v, dict):
         return ('M', tuple(sorted(((canon(k), canon(x)) for k, x in v.items()), key=repr)))
+    if isinstance(v, (set, frozenset)):
+        return ('S', type(v).__name__, tuple(sorted((canon(x) for x in v), key=repr)))
     if isinstance(v, BaseException):
         return ('E', type(v).__name__, repr(v.args))
     return ('o', type(v).__name__, repr(v))
